@@ -315,6 +315,12 @@ StreamOK == phase \in {"run", "done"} =>
               /\ \A i, j \in 1..Len(stream) : i # j => stream[i] # stream[j]
               /\ \A i \in 1..Len(stream) : stream[i] \in DOMAIN slot
               /\ \A i \in 1..Len(stream) : slot[stream[i]].par = 0 \/ \E j \in 1..Len(stream) : stream[j] = slot[stream[i]].par
+\* Pass-skip bits (glyph attribute aPassBits, Segment::passBits, Silf::runGraphite): a glyph carries bit p when no rule of
+\* pass p names a class it belongs to, and a pass is left out when every glyph the segment has held carries its bit.
+\* Sound because such a pass has no winner anywhere: running it is a sequence of cursor advances.
+Mentioned(p) == {g \in 1..NG : \E ri \in 1..Len(RulesOf(p)) : \E k \in 1..Len(RulesOf(p)[ri].ctx) : InClass(g, RulesOf(p)[ri].ctx[k])}
+SkipSound == phase = "run" =>
+               \A p \in 1..Len(prog) : (\A i \in 1..Len(stream) : Gid(i) \notin Mentioned(p)) => \A i \in 1..Len(stream) : Winner(p, i) = 0
 Terminates == <>(phase = "done" \/ phase \in {"build", "text"})
 
 Out == [i \in 1..Len(stream) |->
